@@ -42,7 +42,7 @@ def run(ctx):
         # tid = ELEM.tid ; rva = write_string_to_location(buf, ELEM.name).rva
         okt = tid[0] == "field" and tid[2] == "tid"
         elem_t = tid[1] if okt else None
-        okr = rva[0] == "field" and rva[2] == "rva" and strip(rva[1])[0] == "call" and strip(rva[1])[1].endswith("write_string_to_location")
+        okr = rva[0] == "field" and rva[2] == "rva" and strip(rva[1])[0] == "call" and strip(rva[1])[1]== "mem_writer::write_string_to_location"
         elem_n = None
         if okr:
             s = strip(strip(rva[1])[2][1])
